@@ -47,14 +47,18 @@ def load_findings(prop):
         return []
     with open(FINDINGS_FILE) as f:
         data = json.load(f)
-    return [e for e in data.get("findings", []) if e.get("property") == prop]
+    def owns(e):
+        p = e.get("property")
+        return prop in p if isinstance(p, list) else p == prop
+    return [e for e in data.get("findings", []) if owns(e)]
 
 
 def sig_matches(entry_sig, sig):
     """Every key of the entry's signature must be present and equal (lists = alternatives)."""
     for k, v in entry_sig.items():
-        if k.endswith("_has"):                      # membership in a list-valued signature field
-            if v not in (sig.get(k[:-4]) or []):
+        if k.endswith("_has"):                      # membership in a list-valued signature field (a list = any of)
+            have = sig.get(k[:-4]) or []
+            if not any(x in have for x in (v if isinstance(v, list) else [v])):
                 return False
             continue
         if k not in sig:
